@@ -4,4 +4,6 @@ let table : (string * (Model.sexp -> Model.sexp)) list = [
   ("abi", Model.run_abi);
   ("val", Model.run_val);
   ("ver", Model.run_verify);
+  ("rtmr", Model.run_rtmr);
+  ("retry", Model.run_retry);
 ]
